@@ -58,7 +58,7 @@ def _work(args):
                 'outcomes': rep.outcomes,
                 'clauses': list(rep.clauses().values()),
                 'vcs': len(rep.obligations),
-                'notes': rep.notes + list(c.notes),
+                'notes': rep.notes + list(c.notes) + ([f'callees without contract, results unconstrained and ASSUMED to raise nothing outside the allowed set: {", ".join(sorted(rep.assumed_calls))}'] if rep.assumed_calls else []),
                 'wall': rep.wall,
                 'drops': drop_report(REG, c),
             }
